@@ -146,7 +146,7 @@ def run_shard(spec, seed, cases, workdir, extra_args=()):
         r["oracle"].append(f"HARNESS CRASH rc={rc}: {out[-600:]}")
         return r
     ops = os.path.join(workdir, "ops.txt")
-    if spec.get("mode") and os.path.exists(ops):
+    if spec.get("mode") and os.path.exists(ops) and open(ops).read().strip():
         with open(ops) as fin, open(os.path.join(workdir, "model.txt"), "w") as fout:
             p = subprocess.run([DRIVER] + spec["mode"].split(), stdin=fin, stdout=fout, stderr=subprocess.PIPE, text=True)
         if p.returncode != 0:
@@ -171,7 +171,7 @@ def run_shard(spec, seed, cases, workdir, extra_args=()):
     # monitors that live in the model (driver mode `image`): the decoder exists only in Lean, the harness
     # answers `skip`; a model line starting with `bad ` is a failure of the implementation's image (C16),
     # a non-zero leak counter a failure of the page accounting (C19)
-    if spec.get("mode") == "image" and os.path.exists(os.path.join(workdir, "model.txt")):
+    if spec.get("mode") == "image" and os.path.exists(os.path.join(workdir, "model.txt")) and open(ops).read().strip():
         o = open(ops).read().splitlines() if os.path.exists(ops) else []
         leaks = []
         engine_msgs, r["oracle"] = r["oracle"], []
